@@ -171,7 +171,7 @@ pub fn batch(e: &Engine, cfg: &BatchCfg) -> BatchResult {
                     if r.out.ops_completed > 0 {
                         l_wo += 1;
                     }
-                    if r.out.faults_fired > 0 && r.out.ops_completed > 0 {
+                    if (r.out.faults_fired > 0 || r.out.force_nontrivial) && r.out.ops_completed > 0 {
                         l_nontrivial += 1;
                         l_sigs.push(r.out.sched_sig() as u64);
                     }
